@@ -2,6 +2,7 @@ import DoltVerif.Lemmas.BigValuesVarint
 import DoltVerif.Lemmas.BigValuesBlob
 import DoltVerif.Lemmas.ValCodecBytes
 import DoltVerif.Lemmas.BigValuesWalk
+import DoltVerif.Lemmas.BigValuesWalkLevel
 /-!
 C16 — Large TEXT, BLOB and JSON values are stored faithfully (partial).
 
@@ -284,16 +285,69 @@ theorem adaptive_compare_height1 (cs : Nat) (hs : 2 ≤ cs / addrLen) (x y : Byt
 
 example : topLevelOf 4000 4001 = 1 ∧ topLevelOf 4000 799999 = 1 ∧ topLevelOf 4000 800000 = 2 := by decide
 
-/-- NOT PROVED for heights ≥ 2 (values of 800 000 bytes and more at the production chunk size):
-two out-of-band values whose trees have the same height compare like their contents.  The
-argument is the one of `adaptive_compare_height1` repeated per level (skip equal children, descend
-into the first differing pair; a child that is a strict prefix of its partner is the last child of
-every ancestor, so that side is exhausted and the other yields its next leaf); it holds in every
-run of the harness (chunk sizes 40/60/100 reach height 3). -/
-def adaptive_compare_samelevel_full : Prop :=
-  ∀ cs (x y : Bytes), 2 ≤ cs / addrLen → topLevelOf cs x.length = topLevelOf cs y.length →
-    cs < x.length → cs < y.length →
-    compareAdaptive (.oob (build cs x [])) (.oob (build cs y [])) = some (bytesCompare x y)
+/-- **adaptive_compare_samelevel**: two out-of-band values of more than one chunk whose blob trees
+have the *same height* — any height — compare like their contents.  The single `Next` call is
+enough here: `walkN` (induction over the levels of the two stacks: equal children are skipped,
+the first differing pair is descended into, a side that runs out is exhausted in all its
+ancestors) shows that it delivers the first differing pair of leaves, and `leafCmp_flatten` that
+for aligned fixed-size chunkings this pair decides the comparison of the whole contents.
+Together with `adaptive_compare_small` this leaves exactly the recorded defect: values whose
+trees have *different* heights (or an inline side of at least one chunk). -/
+theorem adaptive_compare_samelevel (cs : Nat) (hs : 2 ≤ cs / addrLen) (x y : Bytes)
+    (hx : cs < x.length) (hy : cs < y.length)
+    (hlev : topLevelOf cs x.length = topLevelOf cs y.length) :
+    compareAdaptive (.oob (build cs x [])) (.oob (build cs y [])) = some (bytesCompare x y) := by
+  have hc : 0 < cs := by
+    rcases Nat.eq_zero_or_pos cs with h | h
+    · subst h; simp at hs
+    · exact h
+  obtain ⟨m, hm⟩ : ∃ m, topLevelOf cs x.length = m + 1 :=
+    ⟨topLevelOf cs x.length - 1, by have := topLevelOf_pos cs x.length hc hx; omega⟩
+  rw [build_large cs hs x hx, build_large cs hs y hy, ← hlev, hm]
+  have fx := leafChunks_flatten cs hc (x.length + 1) x [] (by omega) (fun s hs => by simp at hs)
+  have fy := leafChunks_flatten cs hc (y.length + 1) y [] (by omega) (fun s hs => by simp at hs)
+  have ax := leafChunks_aligned cs hc (x.length + 1) x
+  have ay := leafChunks_aligned cs hc (y.length + 1) y
+  have lx : (leafChunks cs (x.length + 1) x []).length ≤ (cs / addrLen) ^ (m + 1) := by
+    have := leaves_fit cs hs x (x.length + 1); rw [hm] at this; exact this
+  have ly : (leafChunks cs (y.length + 1) y []).length ≤ (cs / addrLen) ^ (m + 1) := by
+    have := leaves_fit cs hs y (y.length + 1); rw [← hlev, hm] at this; exact this
+  generalize leafChunks cs (x.length + 1) x [] = L at *
+  generalize leafChunks cs (y.length + 1) y [] = R at *
+  subst fx; subst fy
+  unfold compareAdaptive
+  simp only []
+  by_cases e : (⟨m + 1, cs / addrLen, L⟩ : Tree) = ⟨m + 1, cs / addrLen, R⟩
+  · have : L = R := by injection e
+    subst this
+    simp [bytesCompare_refl]
+  · simp only [e, decide_false, Bool.false_eq_true, if_false]
+    have w := walkN (cs / addrLen) (by omega) L R (m + 1) (m + 1) m
+      (fuelFor (.oob (some ⟨m + 1, cs / addrLen, L⟩)) + fuelFor (.oob (some ⟨m + 1, cs / addrLen, R⟩))) 0 0 []
+      (Nat.zero_le _) (fun g hg => by simp at hg)
+      (.inl ⟨rfl, by simpa using lx, by simpa using ly⟩)
+      (by simp [fuelFor]; omega)
+    simp only [Nat.zero_mul, Nat.add_zero, List.drop_zero] at w
+    simp only [mkSide]
+    rw [← leafCmp_flatten cs hc L R ax ay]
+    cases hres : differNext (fuelFor (.oob (some ⟨m + 1, cs / addrLen, L⟩)) + fuelFor (.oob (some ⟨m + 1, cs / addrLen, R⟩)))
+        ⟨some ⟨m + 1, cs / addrLen, L⟩, [⟨m + 1, 0, 0⟩], none, false⟩
+        ⟨some ⟨m + 1, cs / addrLen, R⟩, [⟨m + 1, 0, 0⟩], none, false⟩ with
+    | eof => rw [hres] at w; simpa [resultOrd] using w
+    | pair lc rc => rw [hres] at w; simpa [resultOrd] using w
+    | outOfFuel => rw [hres] at w; simp [resultOrd] at w
+
+/-- the statement as it was carried as a `def` in earlier rounds — now a theorem -/
+theorem adaptive_compare_samelevel_full :
+    ∀ cs (x y : Bytes), 2 ≤ cs / addrLen → topLevelOf cs x.length = topLevelOf cs y.length →
+      cs < x.length → cs < y.length →
+      compareAdaptive (.oob (build cs x [])) (.oob (build cs y [])) = some (bytesCompare x y) :=
+  fun cs x y hs hl hx hy => adaptive_compare_samelevel cs hs x y hx hy hl
+
+/-- the hypotheses are satisfiable at height 2 (fan-out 2, chunk size 40: 100 and 120 bytes; in
+production: 800 000 … 159 999 999 bytes) -/
+example : 2 ≤ 40 / addrLen ∧ topLevelOf 40 100 = 2 ∧ topLevelOf 40 120 = 2 ∧
+    topLevelOf 4000 800000 = 2 ∧ topLevelOf 4000 159999999 = 2 := by decide
 
 /-- **the full statement is false of the code** (model = code here: `compareChunkDiffer` looks at one
 pair of chunks): a value exactly one chunk long that is a prefix of a longer value compares
